@@ -131,8 +131,13 @@ impl DmlExecutor {
         // Validate foreign keys.
         validator.validate_foreign_key_constraints(id, &new_values)?;
 
-        // Validate UNIQUE
-        validator.validate_unique_constraints(&new_values, true, HashSet::new())?;
+        // Validate UNIQUE. A row does not conflict with itself: recovery replays logged rows
+        // with the ids they were logged with, and the row may already be there.
+        let mut excluded = HashSet::new();
+        if let Some(DataType::BigUInt(row_id)) = new_values.first() {
+            excluded.insert(row_id.value());
+        }
+        validator.validate_unique_constraints(&new_values, true, excluded)?;
 
         Ok(())
     }
